@@ -88,7 +88,7 @@ PER_NOTE = {
     'C04': 'fixed catalogue module class instead of generated classes; sequential requests only (dispatcher lock not analysed)',
     'C05': 'thread schedules only within <= 2/3 pre-emptions at synchronisation points (locks, send, driver entry) for 2-3 threads',
     'C06': 'catalogue node + four shipped configurations instead of generated configurations',
-    'C07': 'catalogue of request lines (selector) instead of a free byte grammar; asynchronous messages vs. send lock NOT claimed',
+    'C07': 'catalogue of request lines (selector) instead of a free byte grammar; asynchronous messages vs. the send lock under symbolic schedules of 2-3 threads (<= 2/3 pre-emptions)',
     'C08': 'thread schedules only within <= 2/3 pre-emptions at synchronisation points for 2-3 threads; three open known findings (late update after deactivate/*IDN?/disconnect)',
     'C09': 'quantifies over values inside a fixed catalogue of class hierarchies, not over programs',
     'C10': 'config dicts built with the real DSL objects; config text files and search path outside',
@@ -141,7 +141,7 @@ def main():
         'engines': [
             {'name': 'crosshair', 'path': 'engine/xh.py', 'serves_properties': ['C01', 'C04', 'C07', 'C08', 'C12', 'C20'],
              'kind_free_text': 'CrossHair 0.0.110 (symbolic execution with z3) for symbolic string arguments, one process per condition, reachability twin, counterexamples replayed'},
-            {'name': 'cosched', 'path': 'engine/cosched.py', 'serves_properties': ['C05', 'C08', 'C11', 'C16'],
+            {'name': 'cosched', 'path': 'engine/cosched.py', 'serves_properties': ['C05', 'C07', 'C08', 'C11', 'C16'],
              'kind_free_text': 'cooperative scheduler: real threads serialised by a baton, the thread to continue at every synchronisation point is a symbolic '
                                'selector of symx; pre-emption / delay bounded, virtual time, schedules replayed on the unmodified tree'},
             {'name': 'fp-lemmas', 'path': 'engine/fp.py', 'serves_properties': ['C03', 'C02'],
